@@ -66,6 +66,11 @@ def run(ctx):
             q = m.q(f)
             pushes = [c for c in q.calls("push") if fld(c.args[0], qf)]
             ok = len(pushes) == 1 and not q.cfg.in_loop(pushes[0].b)
+            if ok:
+                # unconditional, except that place_order queues only after the creation succeeded
+                extra = [a for a in pushes[0].guards if not (name == "place_order" and a[0] == "variant" and a[2] in (("Continue",), ("Ok",)))]
+                ctx.check(not extra, "submit", "%s::%s|unconditional" % (owner, name), pushes[0].loc(), "%s::%s queues its instruction unconditionally" % (owner, name),
+                          "%s::%s queues its instruction only under [%s]: a submitted instruction can be dropped" % (owner, name, pushes[0].gtext()))
             ctx.check(ok, "submit", "%s::%s|one-push" % (owner, name), ctx.loc(f), "%s::%s queues exactly one instruction" % (owner, name),
                       "%s::%s pushes %d instructions" % (owner, name, len(pushes)))
             if not ok:
